@@ -89,3 +89,34 @@ def unit_sweep():
                 for q in unit_spellings(v, base):
                     acts.append(T(s, d, q))
     return acts
+
+
+# ---- twins: substances that share a name (e1.TWINS) ---------------------------------------------------------------------
+W_TWIN = {
+    'A': ('container', 'inf L', [('water', '10 mL'), ('nacl', '2 mmol'), ('dmso', '1 mL'), ('lipase', '2 U')]),
+    'T': ('container', 'inf L', [('water', '3 mL'), ('nacl_h', '1 mmol'), ('dmso_x', '2 mL'), ('lipase_s', '5 mg')]),
+    'E': ('container', '20 mL', []),
+    'R': ('plate', '500 uL', 1, 2),
+}
+
+
+def twin_seed():
+    return [T('A', ['R', "(1, 1)"], '50 uL'), T('T', ['R', "(1, 2)"], '60 uL')]
+
+
+def twin_alphabet():
+    """Every transfer brings a substance to a vessel that may already hold its twin."""
+    a = []
+    for s, d in (('A', 'T'), ('T', 'A'), ('A', 'E'), ('T', 'E'), ('E', 'A'), ('E', 'T')):
+        for q in ('0.4 mL', '30 mg', '0.2 mmol', '0.1 U'):
+            a.append(T(s, d, q))
+    for s, d in (('A', 'R'), ('T', 'R'), ('R', 'E'), (['R', "(1, 1)"], ['R', "(1, 2)"]), (['R', "(1, 2)"], ['R', "(1, 1)"]),
+                 (['R', "(1, 2)"], 'A')):
+        for q in ('10 uL', '2 mg'):
+            a.append(T(s, d, q))
+    for what in ('nacl', 'nacl_h', 'dmso_x', 'lipase', 'lipase_s', 'SOLID'):
+        a.append({'op': 'remove', 'obj': 'E', 'what': what})
+    a.append({'op': 'remove', 'obj': 'R', 'what': 'dmso'})
+    a.append({'op': 'remove', 'obj': 'T', 'what': 'nacl'})
+    return a
+
